@@ -45,6 +45,11 @@ func (li Balances) View(limit uint64) (*RegistryBalancesView, error) {
 		tmp[i] = Uint64View(bal)
 	}
 	typ := BasicListType(common.GweiType, limit)
+	if len(li) == 0 {
+		// ztyp's FromElements() of zero elements builds a tree whose contents node has a nil right child
+		// (every later HashTreeRoot panics); the empty list is the type's default value.
+		return AsRegistryBalances(typ.Default(nil), nil)
+	}
 	return AsRegistryBalances(typ.FromElements(tmp...))
 }
 
